@@ -74,3 +74,66 @@ def key_options(ctx):
                 ctx.fail(f'keyser:roundtrip:{nm}', f'{nm} with the inverse key_deserializer does not give the user keys back (in key order)',
                          {'n': n, 'base': base, 'history': hist}, repr(got)[:400], repr(want)[:400])
                 return
+
+
+def string_key_spellings(ctx):
+    """bit-string keys in every spelling Python's int(s, 2) admits (sign, surrounding blanks, underscores, 0b prefix) and a few
+    it does not: a key is accepted iff the string denotes an integer 0 <= k < 2^n, and is then stored under exactly k; every
+    other string is refused and leaves the map unchanged.  Failure keys `strkey:*`."""
+    from pytoniq_core.boc.hashmap.hashmap import HashMap
+    rng = ctx.rng
+    for t in range(ctx.n(150, 1500)):
+        n = rng.choice([1, 2, 3, 4, 5, 8, 8, 16, 32, 64, 256, 267])
+        k = rng.choice([0, 1, (1 << n) - 1, rng.randrange(0, 1 << n), rng.randrange(0, 1 << min(n, 5))])
+        digits = format(k, 'b')
+        if rng.random() < 0.5:
+            digits = digits.zfill(rng.choice([n, max(1, n - 1), n + 1, n + 3]))
+        style = rng.choice(['plain', 'minus', 'minus', 'minus-short', 'plus', 'blank', 'under', '0b', '-0b', 'minus-zero', 'wide', 'junk', 'empty'])
+        if style == 'plain':
+            s = digits
+        elif style == 'minus':
+            s = '-' + digits
+        elif style == 'minus-short':
+            s = '-' + format(rng.randrange(1, 1 << max(1, n - 1)) if n > 1 else 1, 'b')     # sign included still at most n characters
+            s = s[:max(2, n)]
+        elif style == 'plus':
+            s = '+' + digits
+        elif style == 'blank':
+            s = rng.choice([' ', '\n', '\t']) + digits + rng.choice(['', ' '])
+        elif style == 'under':
+            s = digits[0] + '_' + digits[1:] if len(digits) > 1 else digits
+        elif style == '0b':
+            s = '0b' + digits
+        elif style == '-0b':
+            s = '-0b' + digits
+        elif style == 'minus-zero':
+            s = '-' + '0' * rng.randrange(1, n + 1)
+        elif style == 'wide':
+            s = format((1 << n) + rng.randrange(0, 1 << n), 'b')
+        elif style == 'junk':
+            s = rng.choice(['2', '1a', '0x1', '1.0', '1e1', '--1', '1-', 'one', '１'])
+        else:
+            s = ''
+        try:
+            val = int(s, 2)
+        except ValueError:
+            val = None
+        good = val is not None and 0 <= val < (1 << n)
+        hm = HashMap(n).with_uint_values(8)
+        other = rng.randrange(0, 1 << n)
+        hm.set_int_key(other, 1)
+        before = dict(hm.map)
+        st, _ = _call(lambda: hm.set(s, 7))
+        ctx.case(('strkey', n, s), nontrivial=True)
+        ctx.count(f'strkey:{style}:{"fits" if good else "bad"}')
+        inp = {'n': n, 'key': s, 'denotes': val, 'other_key': other}
+        if good and st != 'ok':
+            ctx.fail(f'strkey:good-rejected:{style}', f'the bit string {s!r} denotes {val}, which fits width {n}, and was rejected', inp, 'exception', 'accepted')
+        elif good and dict(hm.map) != {**before, val: 7}:
+            ctx.fail(f'strkey:misfiled:{style}', f'the bit string {s!r} denotes {val} but the map now holds {sorted(hm.map)[:6]}', inp,
+                     repr(dict(hm.map))[:300], repr({**before, val: 7})[:300])
+        elif not good and st == 'ok':
+            ctx.fail(f'strkey:bad-accepted:{style}', f'the string {s!r} ({"= " + str(val) if val is not None else "not a binary numeral"}) does not denote a key '
+                     f'of width {n} and was accepted; stored keys now {sorted(hm.map)[:6]}', inp, 'accepted', 'DictError')
+        elif not good and dict(hm.map) != before:
+            ctx.fail(f'strkey:bad-mutated:{style}', 'a rejected string key changed the map', inp, repr(dict(hm.map))[:300], repr(before)[:300])
